@@ -469,6 +469,12 @@ fn fifo<T: S14>(ty: Ty, bytes: &[u8], chunks: &[u16], pages: u8, ctx: &mut Ctx) 
             outp.drain(usize::MAX);
             match src.work() {
                 Ok(rustradio::block::BlockRet::EOF) => return Err("EOF while the writer is still open".into()),
+                // the source's only stream is its output, which is completely empty here: a
+                // wait on it can never end (a runner stops calling the block with data still
+                // to come)
+                Ok(rustradio::block::BlockRet::WaitForStream(_, need)) if crate::drip::OutPort::available(&outp) == 0 && need <= crate::drip::OutPort::capacity(&outp) => {
+                    return Err(format!("misdirected wait: the source waits for {need} free samples on its completely empty output while the writer of the FIFO is still open ({pos} of {} bytes written)", bytes.len()));
+                }
                 Ok(_) => {}
                 Err(e) => return Err(format!("work: {e}")),
             }
@@ -739,4 +745,4 @@ impl C14 {
     }
 }
 
-const RULE: &str = "generated: (a) Sample::parse/serialize/size on raw bit patterns for u8,u32,i32,f32,Complex; (b) FileSink(Overwrite) -> file -> FileSource for every type, onto a fresh path or over an older, longer or shorter file, 0..14k samples of arbitrary bit patterns, both sides under drip schedules on 1-3 page streams; (c) SigMFSource on recording pairs and on tar archives whose members (meta, data, up to 3 unrelated files; every third archive with member paths longer than 100 bytes) are written in a generated order, plus malformed variants (two metas, missing/duplicate data, wrong datatype, garbage meta) that must be rejected with Err; (d) AuEncode -> AuDecode on x in [-1,1] (and some saturating values) under drip schedules on both blocks, and AuDecode on the repository's testdata/aprs.au; (e) read segmentation: FileSource on a FIFO and TcpSource on a loopback connection whose writer releases generated chunk sizes (1-byte chunks and splits inside a sample included; the harness paces on FIONREAD / TIOCOUTQ so the single-threaded blocking reads always find data). Oracle: independent little-endian / big-endian PCM16 readers of the same bytes; exact sample sequences and counts (trailing partial sample dropped); encoder bytes == documented 28-byte header + PCM16. Non-trivial: a split inside a sample, or a stream longer than one capacity, or an archive with >= 3 members in non-canonical order, or a malformed container; distinct = hash of the case.";
+const RULE: &str = "generated: (a) Sample::parse/serialize/size on raw bit patterns for u8,u32,i32,f32,Complex; (b) FileSink(Overwrite) -> file -> FileSource for every type, onto a fresh path or over an older, longer or shorter file, 0..14k samples of arbitrary bit patterns, both sides under drip schedules on 1-3 page streams; (c) SigMFSource on recording pairs and on tar archives whose members (meta, data, up to 3 unrelated files; every third archive with member paths longer than 100 bytes) are written in a generated order, plus malformed variants (two metas, missing/duplicate data, wrong datatype, garbage meta) that must be rejected with Err; (d) AuEncode -> AuDecode on x in [-1,1] (and some saturating values) under drip schedules on both blocks, and AuDecode on the repository's testdata/aprs.au; (e) read segmentation: FileSource on a FIFO and TcpSource on a loopback connection whose writer releases generated chunk sizes (1-byte chunks and splits inside a sample included; the harness paces on FIONREAD / TIOCOUTQ so the single-threaded blocking reads always find data). On the FIFO the source must not report a wait on its (empty) output while more data can come. Oracle: independent little-endian / big-endian PCM16 readers of the same bytes; exact sample sequences and counts (trailing partial sample dropped); encoder bytes == documented 28-byte header + PCM16. Non-trivial: a split inside a sample, or a stream longer than one capacity, or an archive with >= 3 members in non-canonical order, or a malformed container; distinct = hash of the case.";
